@@ -1557,8 +1557,13 @@ pub fn lying_ops(case: &mut Case, n: usize, full: bool) -> Vec<Vec<Op>> {
         for b in a..=n {
             for k in 0..=k_max {
                 // constant lies of several magnitudes; lies that start with the second len() call (40+d); lies on the first call only (80+d)
-                for delta in [-2i8, -1, 1, 2, -5, 5, 7, 45, 38, 42, 85, 78, 83] {
+                for delta in [-2i8, -1, 1, 2, -5, 5, 7, 45, 38, 42, 85, 78, 83, LIE_HUGE] {
                     if (a + 2 * b + k) % 2 == 1 && delta.abs() > 2 {
+                        continue;
+                    }
+                    // the gross lie: only where the byte size cannot be a valid allocation request (a valid but enormous one
+                    // aborts the process when the allocator refuses it), i.e. not for one-byte elements, and not on fixed backends
+                    if delta == LIE_HUGE && (case.cfg.elem.size < 2 || case.cfg.fixed_cap.is_some() || k > 1) {
                         continue;
                     }
                     if let Some(c) = case.cfg.fixed_cap {
